@@ -12,10 +12,15 @@ import shutil
 import numpy as np
 
 
-def write_fileset(ctx, prefix, codes, r):
+def write_fileset(ctx, prefix, codes, r, layout="variant-major"):
     m, n = len(codes), len(codes[0])
-    pads = [[r.randrange(4) for _ in range(3)] for _ in range(m)]
-    raw = bytes(ctx.model.call(1601, [codes, pads]))
+    if layout == "variant-major":
+        pads = [[r.randrange(4) for _ in range(3)] for _ in range(m)]
+        raw = bytes(ctx.model.call(1601, [codes, pads]))
+    else:
+        # individual-major (third magic byte 0): one row per sample
+        pads = [[r.randrange(4) for _ in range(3)] for _ in range(n)]
+        raw = bytes(ctx.model.call(1602, [codes, n, pads]))
     with open(prefix + ".bed", "wb") as f:
         f.write(raw)
     ids = [f"ind{s}_{r.randint(0, 99)}" for s in range(n)]
@@ -40,7 +45,7 @@ def run_case(ctx, doc, codes, vcs, scs, workers, r, d):
 
     m, n = len(codes), len(codes[0])
     prefix = os.path.join(d, "fs")
-    raw, ids, pos, alleles = write_fileset(ctx, prefix, codes, r)
+    raw, ids, pos, alleles = write_fileset(ctx, prefix, codes, r, doc.get("layout", "variant-major"))
     out = os.path.join(d, "o.vcz")
     shutil.rmtree(out, ignore_errors=True)
     try:
@@ -80,6 +85,57 @@ def run_case(ctx, doc, codes, vcs, scs, workers, r, d):
         ctx.fail(doc, dict(chunks=root["call_genotype"].chunks), "requested chunk sizes not used")
 
 
+def wide_case(ctx, r, d):
+    """thorough tier only: a very wide fileset (variants_chunk_size x samples > 2^26 cells per chunk) with a chunk
+    length that divides nothing, written with numpy and compared with the documented mapping directly"""
+    import zarr
+    from bio2zarr import plink
+
+    n, m, vcs = 30000, 2267, 2237
+    rs = np.random.RandomState(ctx.seed + 16)
+    codes = rs.randint(0, 4, size=(m, n)).astype(np.uint8)
+    padded = np.zeros((m, (n + 3) // 4 * 4), dtype=np.uint8)
+    padded[:, :n] = codes
+    q = padded.reshape(m, -1, 4)
+    body = (q[:, :, 0] | (q[:, :, 1] << 2) | (q[:, :, 2] << 4) | (q[:, :, 3] << 6)).astype(np.uint8)
+    prefix = os.path.join(d, "wide")
+    with open(prefix + ".bed", "wb") as f:
+        f.write(bytes([108, 27, 1]))
+        f.write(body.tobytes())
+    with open(prefix + ".fam", "w") as f:
+        for s_ in range(n):
+            f.write(f"f{s_} i{s_} 0 0 0 -9\n")
+    with open(prefix + ".bim", "w") as f:
+        for v in range(m):
+            f.write(f"1\tsnp{v}\t0\t{100 + v}\tA\tC\n")
+    doc = dict(layout="variant-major", samples=n, variants=m, style="wide", variants_chunk_size=vcs, samples_chunk_size=None, worker_processes=2, codes="large")
+    ctx.case(doc, nontrivial=True)
+    ctx.count("wide")
+    out = os.path.join(d, "wide.vcz")
+    try:
+        plink.convert(prefix + ".bed", out, variants_chunk_size=vcs, worker_processes=2)
+    except Exception as e:  # noqa: BLE001
+        ctx.fail(doc, dict(error=f"{type(e).__name__}: {e}"[:300]), "plink.convert raised")
+        return
+    lut = np.array([[0, 0], [-1, -1], [1, 0], [1, 1]], dtype=np.int8)
+    root = zarr.open(out, mode="r")
+    bad = []
+    for a in range(0, m, 200):
+        want = lut[codes[a:a + 200]]
+        gt = root["call_genotype"][a:a + 200]
+        if gt.shape != want.shape or not (gt == want).all():
+            bad.append(a)
+        mk = root["call_genotype_mask"][a:a + 200]
+        if not (mk == (want == -1)).all():
+            bad.append(a)
+    if bad:
+        ctx.fail(doc, dict(first_bad_row_block=bad[:4]), "converted store differs from the fileset contents in ['call_genotype'] (wide fileset)")
+    for ext in (".bed", ".bim", ".fam"):
+        os.remove(prefix + ext)
+    shutil.rmtree(out, ignore_errors=True)
+    ctx.traces_validated += 1
+
+
 def run(ctx):
     r = ctx.rnd
     d = os.path.join(ctx.work, "c16")
@@ -99,14 +155,16 @@ def run(ctx):
         vcs = r.choice([None, 1, 2, 3, m, m + 2, r.randint(1, m + 1)])
         scs = r.choice([None, 1, 2, n, n + 2, r.randint(1, n + 1)])
         workers = r.choice([0, 0, 1, 2, 3, 8]) if not ctx.quick or i % 4 == 0 else 0
-        doc = dict(samples=n, variants=m, style=style, variants_chunk_size=vcs, samples_chunk_size=scs, worker_processes=workers, codes=codes if m * n <= 60 else "large")
+        layout = "individual-major" if r.random() < 0.2 else "variant-major"
+        doc = dict(layout=layout, samples=n, variants=m, style=style, variants_chunk_size=vcs, samples_chunk_size=scs, worker_processes=workers, codes=codes if m * n <= 60 else "large")
         ctx.case(doc, nontrivial=(m > 1 or n > 1), sample=(i == 1))
         ctx.count(f"workers:{workers}")
         ctx.count("n mod 4 = %d" % (n % 4))
+        ctx.count("layout:" + layout)
         run_case(ctx, doc, codes, vcs, scs, workers, r, d)
         ctx.traces_validated += 1
-    # a file that is not a bed file
-    from bio2zarr import plink
+    if not ctx.quick:
+        wide_case(ctx, r, d)
     shutil.rmtree(d, ignore_errors=True)
 
 
